@@ -1,13 +1,121 @@
-(* Properties/C02.v — pinned statements only. *)
-From Boreal Require Import Base.Prelude Spec.Regex Model.Widen Model.Validator Model.Raw Model.HirScan
-  Proofs.HexScanProofs.
+(* Properties/C02.v — pinned statements only.  Hex strings: reported matches are sound, complete, ordered.
+   s_* : compiled form of a string (literals, atom offsets, kind, modifiers, HIR, pre/post HIR);
+   model_scan : Model/HirScan.v (AC hit order -> confirm literal -> validators -> insert_match);
+   ends / Lens : Spec/Regex.v (independent reference semantics). *)
+From Boreal Require Import Base.Prelude Spec.Regex Model.Hir Model.Widen Model.Validator Model.Raw Model.HirScan
+  Model.Decomp Model.HexCase
+  Proofs.HexScanProofs Proofs.ValidatorProofs Proofs.DecompProofs Proofs.HexProofs Proofs.HexWitnesses.
 From Coq Require Import Sorted.
 
-(* Clause 3 (ordered, one match per offset) for every string that goes through the Aho-Corasick
-   pass, for any decomposition, validators and input. *)
+(* Ordered, one match per offset: every string that goes through the Aho-Corasick pass, any
+   decomposition, any validators, any input, any limit. *)
 Theorem C02_ac_scan_ascending :
   forall use_sp d mem max_nb,
     StronglySorted (fun a b => fst a < fst b) (ac_scan use_sp d mem max_nb).
 Proof. exact ac_scan_ascending. Qed.
 
+(* Soundness: for ANY decomposition with the glue half of `Decomp` (not needed when the end is
+   computed by the whole pattern), every input, with or without start_position, any limit. *)
+Theorem C02_atomized_sound :
+  forall use_sp d mem max_nb,
+    plain (s_mods d) -> atoms_ok d -> kind_ok d ->
+    (s_kind d = KGreedy \/ DecompGlue (s_mods d) mem (s_hir d) (s_lits d) (s_pre d) (s_post d)) ->
+    Forall (fun y => In (snd y) (Lens (flags_of (s_mods d)) mem (s_hir d) (fst y))) (ac_scan use_sp d mem max_nb).
+Proof. exact atomized_sound. Qed.
+
+(* Completeness: for ANY decomposition with the split half of `Decomp` (which carries the window),
+   every start of a member is reported, outside the class of known finding 9.5. *)
+Theorem C02_atomized_complete :
+  forall d mem max_nb a b,
+    plain (s_mods d) -> atoms_ok d -> kind_ok d ->
+    DecompSplit (s_mods d) mem (s_hir d) (s_lits d) (s_pre d) (s_post d) ->
+    nlen mem <= umax -> nlen mem < max_nb ->
+    kf_start_position d mem max_nb = false ->
+    In b (ends (flags_of (s_mods d)) mem (s_hir d) a) ->
+    In a (map fst (model_scan d mem max_nb)).
+Proof. exact atomized_complete. Qed.
+
+(* The first two clauses of the property in their exact form, for any `Decomp` *)
+Theorem C02_atomized_exact :
+  forall d mem max_nb,
+    plain (s_mods d) -> atoms_ok d -> kind_ok d ->
+    (s_kind d = KGreedy \/ DecompGlue (s_mods d) mem (s_hir d) (s_lits d) (s_pre d) (s_post d)) ->
+    DecompSplit (s_mods d) mem (s_hir d) (s_lits d) (s_pre d) (s_post d) ->
+    Forall (fun l => l <> []) (s_lits d) ->
+    nlen mem <= umax -> nlen mem < max_nb ->
+    kf_start_position d mem max_nb = false ->
+    let r := model_scan d mem max_nb in
+    map fst r = filter (fun o => nonempty (ends (flags_of (s_mods d)) mem (s_hir d) o)) (iota 0 (nlen mem))
+    /\ Forall (fun y => In (snd y) (Lens (flags_of (s_mods d)) mem (s_hir d) (fst y))) r.
+Proof. exact atomized_exact. Qed.
+
+(* Theorem B: the flat split around ANY run of single-byte parts satisfies `Decomp` *)
+Theorem C02_flat_decomp_glue :
+  forall md mem, m_nocase md = false -> bytes_ok mem ->
+  forall A R B, forallb is_leaf R = true ->
+    DecompGlue md mem (HConcat (A ++ R ++ B)) (expand (m_dot_all md) R) (pre_of A R) (post_of R B).
+Proof. exact flat_glue. Qed.
+
+Theorem C02_flat_decomp_split :
+  forall md mem, m_nocase md = false -> bytes_ok mem ->
+  forall A R B, forallb is_leaf R = true -> R <> [] ->
+    nlen mem <= MAX_SPLIT_MATCH_LENGTH ->
+    DecompSplit md mem (HConcat (A ++ R ++ B)) (expand (m_dot_all md) R) (pre_of A R) (post_of R B).
+Proof. exact flat_split. Qed.
+
+(* Every flat pattern (every flat hex string), every run, every input within the window *)
+Theorem C02_flat_hex_exact :
+  forall md A R B atoms k mem max_nb,
+    plain md -> m_nocase md = false ->
+    forallb is_leaf R = true -> R <> [] ->
+    (k = KNonGreedy \/ (k = KLiterals /\ A = [] /\ B = [])) ->
+    let d := flat_desc md A R B atoms k in
+    atoms_ok d ->
+    bytes_ok mem -> nlen mem <= MAX_SPLIT_MATCH_LENGTH -> nlen mem < max_nb ->
+    kf_start_position d mem max_nb = false ->
+    let r := model_scan d mem max_nb in
+    map fst r = filter (fun o => nonempty (ends (flags_of md) mem (HConcat (A ++ R ++ B)) o)) (iota 0 (nlen mem))
+    /\ Forall (fun y => In (snd y) (Lens (flags_of md) mem (HConcat (A ++ R ++ B)) (fst y))) r.
+Proof. exact flat_hex_exact. Qed.
+
+(* known findings are real; pinned-tree decompositions that were repaired were wrong *)
+Theorem C02_start_position_refuted :
+  In 0 (starts_spec (flags_of md_hex) m_95 h_95)
+  /\ ~ In 0 (map fst (model_scan d_95 m_95 1000))
+  /\ kf_start_position d_95 m_95 1000 = true
+  /\ In 0 (map fst (ac_scan false d_95 m_95 1000)).
+Proof. exact start_position_refuted. Qed.
+
+Theorem C02_alt_glue_refuted :
+  In (2, 4) (model_scan d_glue m_glue 1000)
+  /\ ~ In 4 (Lens (flags_of md_hex) m_glue h_glue 2)
+  /\ kf_alt_glue d_glue h_glue m_glue = true
+  /\ ~ DecompGlue md_hex m_glue h_glue (s_lits d_glue) (s_pre d_glue) (s_post d_glue).
+Proof. exact alt_glue_refuted. Qed.
+
+Theorem C02_alt_first_post_pinned_refuted :
+  In 0 (starts_spec (flags_of md_hex) m_pin h_pin)
+  /\ model_scan (d_pin h_pin) m_pin 1000 = []
+  /\ model_scan (d_pin (HConcat [HGroup (HAlt [HConcat [HLit 204]; HConcat [HLit 85; HLit 52; HLit 188]]); HLit 99; HDot; HLit 49]))
+                m_pin 1000 = [(0, 7)].
+Proof. exact alt_first_post_pinned_refuted. Qed.
+
+(* non-vacuity: { AA [1-3] BB CC DD ?? EE } on a 15-byte input meets every hypothesis of C02_flat_hex_exact *)
+Example C02_flat_example :
+  let d := flat_desc md_hex A_ex R_ex B_ex [(0, 0)] KNonGreedy in
+  plain md_hex /\ m_nocase md_hex = false /\ forallb is_leaf R_ex = true /\ R_ex <> []
+  /\ atoms_ok d /\ bytes_ok m_ex /\ nlen m_ex <= MAX_SPLIT_MATCH_LENGTH /\ nlen m_ex < 1000
+  /\ kf_start_position d m_ex 1000 = false
+  /\ model_scan d m_ex 1000 = [(0, 7); (7, 8)].
+Proof. exact flat_example_hyps. Qed.
+
 Print Assumptions C02_ac_scan_ascending.
+Print Assumptions C02_atomized_sound.
+Print Assumptions C02_atomized_complete.
+Print Assumptions C02_atomized_exact.
+Print Assumptions C02_flat_decomp_glue.
+Print Assumptions C02_flat_decomp_split.
+Print Assumptions C02_flat_hex_exact.
+Print Assumptions C02_start_position_refuted.
+Print Assumptions C02_alt_glue_refuted.
+Print Assumptions C02_alt_first_post_pinned_refuted.
